@@ -1,4 +1,4 @@
 SPECIFICATION Spec
-CONSTANTS MaxArgs = 2  Rich = TRUE  AllFlags = TRUE  Emit = TRUE
+CONSTANTS MaxArgs = 2  Rich = TRUE  AllFlags = TRUE  Emit = TRUE  SingleAllFlags = TRUE
 INVARIANTS GenWellFormed RoundTrip PrefixIncomplete ConsumeWhole LenOrderFree Stable DeclaredOk Emitter
 CHECK_DEADLOCK FALSE
